@@ -44,9 +44,14 @@ import GIVerif.Gen.TypelibLayout
 namespace GIVerif.Lookup
 open GIVerif.Py
 
-/-- The literals of the C sources the model was written for (re-read from /repo on every run). -/
+/-- The literals of the C sources the model was written for (re-read from /repo on every run).
+    The blob kinds BLOB_IS_REGISTERED_TYPE accepts are listed EXPLICITLY (the translator applies the
+    compiled predicate to every enumerator, in both preprocessor variants), so dropping a kind
+    (e.g. a range check that loses BLOB_TYPE_UNION = 11) or adding one shows up here. -/
 theorem C14_tables :
-    Gen.registeredInline = Gen.registeredMacro
+    Gen.registeredInline = [("BLOB_TYPE_STRUCT", 3), ("BLOB_TYPE_ENUM", 5), ("BLOB_TYPE_FLAGS", 6),
+                            ("BLOB_TYPE_OBJECT", 7), ("BLOB_TYPE_INTERFACE", 8), ("BLOB_TYPE_UNION", 11)]
+    ∧ Gen.registeredInline = Gen.registeredMacro
     ∧ Gen.registeredBlobTypes = Gen.registeredInline.map (·.2)
     ∧ (∀ p ∈ Gen.blobTypeEnum, ("GTypelibBlobType", p.1, p.2) ∈ Gen.typelibEnums)
     ∧ ("Header", "n_local_entries", 176, 16) ∈ Gen.blobFields
